@@ -18,6 +18,10 @@
    * a package node stands for the package step together with its build step;
      its items are, in the order of Step.getAllDepSteps(), the own checkout
      step (ISrc) and the package steps of dependencies and tools (IDep);
+   * the checkout step of a node is identified by r_src (its workspace); several
+     package nodes may share one checkout step, its attributes (r_srcid,
+     r_haslive, r_live, r_livecalc) are then repeated in each of them
+     (Spec.src_consistent);
    * the archive is a finite map  build-id -> artifact  plus the map
      live-build-id -> source build-id;
    * scripts are the section variables run_build / run_pkg, the directory
@@ -125,8 +129,8 @@ Definition fresh_pws : pws :=
 Inductive prune_reason := PrRecipe | PrBuildId | PrForced | PrUnshare.
 
 Inductive event :=
-| EQuery (id : label) (known : bool)
-| ECheckout (id : label)
+| EQuery (id : label) (known : bool)            (* id: the checkout step (r_src) *)
+| ECheckout (id : label)                        (* id: the checkout step (r_src) *)
 | EPrune (id : label) (r : prune_reason)
 | EDownload (id : label) (ok : bool)
 | ESkipDownloaded (id : label)
@@ -138,16 +142,16 @@ Inductive event :=
 Record state := {
   (* persistent, per workspace *)
   ws : list (label * pws);
-  srcx : list label;                        (* source workspaces that exist *)
+  srcx : list label;                        (* source workspaces that exist (keyed by r_src) *)
   trc : list (bytes * bytes);               (* BobState build-id cache: live build-id -> build-id *)
   (* the shared archive *)
   arch : list (bytes * artifact);
   archl : list (bytes * bytes);
   (* per invocation (LocalBuilder attributes) *)
   wasrun : list label;                      (* __wasRun, build/package steps *)
-  corun : list label;                       (* __wasRun, checkout steps *)
+  corun : list label;                       (* __wasRun, checkout steps (keyed by r_src) *)
   tried : list label;                       (* __wasDownloadTried *)
-  srcids : list (label * (bytes * bool));   (* __srcBuildIds: (build-id, predicted) *)
+  srcids : list (label * (bytes * bool));   (* __srcBuildIds: r_src -> (build-id, predicted) *)
   bdids : list (label * bytes);             (* __buildDistBuildIds *)
   trace : list event                        (* newest first *)
 }.
@@ -203,6 +207,10 @@ Definition putws (id : label) (w : pws) (st : state) : state := set_ws st ((id, 
 
 Record recipe := {
   r_id : label;             (* identity of the dist workspace *)
+  r_src : label;            (* identity of the checkout step = its workspace path; package nodes that
+                               differ only after checkout (variants of one recipe) share it.  All
+                               checkout state of the builder (__wasRun of checkout steps, __srcBuildIds,
+                               existence of the source workspace) is keyed by it, not by the package *)
   r_vid : label;            (* Variant-Id of the package step *)
   r_core : label;           (* everything of the node itself that enters the Build-Id: scripts, consumed
                                variables, tool names/paths/libs, fingerprint output, platform,
@@ -287,26 +295,26 @@ Section Model.
     end.
 
   Definition do_checkout (r : recipe) (st : state) : state :=
-    if memN (r_id r) (corun st) then st else
-    let fresh := negb (memN (r_id r) (srcx st)) in
-    let st1 := ev (ECheckout (r_id r)) (set_srcx st (r_id r :: srcx st)) in
+    if memN (r_src r) (corun st) then st else
+    let fresh := negb (memN (r_src r) (srcx st)) in
+    let st1 := ev (ECheckout (r_src r)) (set_srcx st (r_src r :: srcx st)) in
     let st2 := if fresh && c_can_upload c && r_haslive r then
                  match r_livecalc r with
                  | Some l => set_archl st1 ((l, r_srcid r) :: archl st1)
                  | None => st1
                  end
                else st1 in
-    set_corun st2 (r_id r :: corun st2).
+    set_corun st2 (r_src r :: corun st2).
 
   Definition handle_changed (r : recipe) (st : state) : state :=
     (* __srcBuildIds[key] = (hash, False); derived ids dropped (__buildDistBuildIds reset);
        _clearWasRun(): build/package steps forgotten; _clearDownloadTried(): downloads are
        tried again in the next pass *)
-    let st1 := set_srcids st ((r_id r, (r_srcid r, false)) :: srcids st) in
+    let st1 := set_srcids st ((r_src r, (r_srcid r, false)) :: srcids st) in
     ev ERestart (set_tried (set_wasrun (set_bdids st1 []) []) []).
 
   Definition verify_src (r : recipe) (st : state) : res :=
-    match lookupN (r_id r) (srcids st) with
+    match lookupN (r_src r) (srcids st) with
     | None => Ok st
     | Some (b, predicted) =>
       if beqb b (r_srcid r) then Ok st
@@ -315,23 +323,23 @@ Section Model.
     end.
 
   Definition cook_checkout (r : recipe) (st : state) : res :=
-    if memN (r_id r) (corun st) then Ok st else verify_src r (do_checkout r st).
+    if memN (r_src r) (corun st) then Ok st else verify_src r (do_checkout r st).
 
   Definition src_bid (r : recipe) (st : state) : bytes * state :=
-    match lookupN (r_id r) (srcids st) with
+    match lookupN (r_src r) (srcids st) with
     | Some (b, _) => (b, st)
     | None =>
-      let use_live := negb (memN (r_id r) (srcx st)) && r_haslive r && c_can_download c in
+      let use_live := negb (memN (r_src r) (srcx st)) && r_haslive r && c_can_download c in
       let '(ret, st1) :=
         if use_live then
           let '(t, s) := match r_live r with Some l => translate l st | None => (None, st) end in
-          (t, ev (EQuery (r_id r) (match t with Some _ => true | None => false end)) s)
+          (t, ev (EQuery (r_src r) (match t with Some _ => true | None => false end)) s)
         else (None, st) in
       match ret with
-      | Some b => (b, set_srcids st1 ((r_id r, (b, true)) :: srcids st1))
+      | Some b => (b, set_srcids st1 ((r_src r, (b, true)) :: srcids st1))
       | None =>
         let st2 := do_checkout r st1 in
-        (r_srcid r, set_srcids st2 ((r_id r, (r_srcid r, false)) :: srcids st2))
+        (r_srcid r, set_srcids st2 ((r_src r, (r_srcid r, false)) :: srcids st2))
       end
     end.
 
